@@ -44,10 +44,16 @@ def aesthetics(flux, invvar, method='traditional'):
         elif method == 'mean':
             newflux = flux.copy()
             goodpts = invvar > 0
-            newflux[~goodpts] = newflux[goodpts].mean()
+            #
+            # Without a single good point there is no mean to fill in.
+            #
+            if goodpts.any():
+                newflux[~goodpts] = newflux[goodpts].mean()
         elif method == 'damp':
             l = 250  # damping length in pixels
             goodpts = invvar.nonzero()[0]
+            if goodpts.size == 0:
+                return flux.copy()
             nflux = flux.size
             mingood = goodpts.min()
             maxgood = goodpts.max()
